@@ -21,6 +21,7 @@ import (
 	"strconv"
 	"strings"
 	"sync"
+	"sync/atomic"
 	"testing"
 	"time"
 
@@ -256,6 +257,25 @@ type c11 struct {
 	fullSearches int
 	keys     map[string]*kinfo
 	stats    map[string]int
+	// pooled send buffers seen so far (kept alive: an address is never reused), numbered in
+	// order of first appearance over the whole run (the pools are process-wide)
+	bufIDs map[*[]byte]int
+}
+
+// bufID names a pooled buffer ("-" = nil).
+func (c *c11) bufID(b *[]byte) string {
+	if b == nil {
+		return "-"
+	}
+	if c.bufIDs == nil {
+		c.bufIDs = map[*[]byte]int{}
+	}
+	id, ok := c.bufIDs[b]
+	if !ok {
+		id = len(c.bufIDs) + 1
+		c.bufIDs[b] = id
+	}
+	return strconv.Itoa(id)
 }
 
 func (c *c11) pf(format string, a ...interface{}) { fmt.Fprintf(c.w, format+"\n", a...) }
@@ -451,8 +471,9 @@ func (c *c11) obs(v *vmach) string {
 	if c.midMach == v {
 		mid = " mid=1"
 	}
-	return fmt.Sprintf("sn=%d se=%d rn=%d re=%d hl=%d bl=%d%s", v.m.sendCipher.nonce, v.sendRot,
-		v.m.recvCipher.nonce, v.recvRot, len(v.m.nextHeaderSend), len(v.m.nextBodySend), mid)
+	return fmt.Sprintf("sn=%d se=%d rn=%d re=%d hl=%d bl=%d hb=%s bb=%s%s", v.m.sendCipher.nonce, v.sendRot,
+		v.m.recvCipher.nonce, v.recvRot, len(v.m.nextHeaderSend), len(v.m.nextBodySend),
+		c.bufID(v.m.pooledHeaderBuf), c.bufID(v.m.pooledBodyBuf), mid)
 }
 
 // ---- handshake operations ---------------------------------------------------
@@ -687,6 +708,16 @@ func (c *c11) flush(v *vmach, budget int, eager bool) (int, string) {
 	c.stats["flush_"+res]++
 	c.pf("flush %d budget=%s eager=%d => n=%d err=%s | %s", v.id, bs, e, n, res, c.obs(v))
 	return n, res
+}
+
+// clearOp calls Conn.ClearPendingSend on a Conn around v's Machine.
+func (c *c11) clearOp(v *vmach) {
+	res := "ok"
+	if guard(func() { (&Conn{noise: v.m}).ClearPendingSend() }) {
+		res = "panic"
+	}
+	c.stats["clear_"+res]++
+	c.pf("clear %d => %s | %s", v.id, res, c.obs(v))
 }
 
 func (c *c11) read(v *vmach, from *vpipe) string {
@@ -1003,6 +1034,111 @@ func (c *c11) caseDuplex(n int, bigP float64) {
 	}
 	c.read(R, I.out)
 	c.read(I, R.out)
+	c.endCase()
+}
+
+// casePool: several connections of one process at once. All Machines share the two
+// package-level sync.Pools of send buffers; records of different connections are pending
+// (buffered, half written) at the same time, buffers travel from one connection to the
+// next, ClearPendingSend is called the way lnd's writeHandler does (after every completed
+// write) and, rarely, on a half-written record (the stream is dead afterwards). Every
+// completely flushed record is read by the peer.
+func (c *c11) casePool(pairs, steps int, bigP float64) {
+	c.startCase("pool")
+	var ms []*vmach
+	for i := 0; i < pairs; i++ {
+		I, R := c.honest()
+		ms = append(ms, I, R)
+	}
+	pending := func(v *vmach) bool { return len(v.m.nextHeaderSend)+len(v.m.nextBodySend) > 0 }
+	inflight := map[*vmach]int{}
+	dead := map[*vmach]bool{}
+	sent := map[*vmach]int{}
+	for s := 0; s < steps; s++ {
+		np := 0
+		for _, v := range ms {
+			if pending(v) {
+				np++
+			}
+		}
+		if np >= 2 {
+			c.stats["pool_ops_with_2_pending"]++
+		}
+		v := ms[c.rng.Intn(len(ms))]
+		r := c.rng.Float64()
+		switch {
+		case inflight[v.peer] > 0 && r < 0.30:
+			// v reads the next complete record of its peer (possibly while v itself has a
+			// half-written record of its own)
+			var res string
+			if c.rng.Intn(3) == 0 {
+				res = c.readSplit(v, v.peer.out)
+			} else {
+				res = c.read(v, v.peer.out)
+			}
+			inflight[v.peer]--
+			if res != "ok" {
+				dead[v.peer] = true
+				inflight[v.peer] = 0
+			}
+		case dead[v]:
+			continue
+		case pending(v) && r < 0.04:
+			// dropping a half-written record: nothing of this direction can be read afterwards
+			c.clearOp(v)
+			dead[v] = true
+			// the next record goes out all the same (lnd would disconnect); the peer's read fails
+			c.write(v, c.randMsg(c.rng.Intn(20)))
+			c.flush(v, -1, false)
+			if inflight[v] == 0 {
+				c.read(v.peer, v.out)
+			}
+		case pending(v) && r < 0.08:
+			c.write(v, c.randMsg(c.rng.Intn(4))) // refused
+		case pending(v):
+			before := pending(v)
+			if c.rng.Intn(4) == 0 {
+				c.flush(v, -1, false)
+			} else {
+				c.flush(v, c.pickBudget(v), c.rng.Intn(3) == 0)
+			}
+			if before && !pending(v) {
+				inflight[v]++
+				if c.rng.Intn(3) == 0 {
+					c.clearOp(v)
+				}
+			}
+		default:
+			if c.write(v, c.randMsg(c.pickSize(sent[v], bigP))) != "ok" {
+				continue
+			}
+			sent[v]++
+			if c.rng.Intn(3) == 0 {
+				c.flush(v, c.pickBudget(v), c.rng.Intn(3) == 0)
+				if !pending(v) {
+					inflight[v]++
+				}
+			}
+		}
+	}
+	// drain: finish every pending record, read everything that is readable
+	for _, v := range ms {
+		if dead[v] {
+			continue
+		}
+		if pending(v) {
+			c.flush(v, -1, false)
+			inflight[v]++
+		}
+		c.clearOp(v)
+	}
+	for _, v := range ms {
+		for ; inflight[v] > 0 && !dead[v]; inflight[v]-- {
+			if c.read(v.peer, v.out) != "ok" {
+				break
+			}
+		}
+	}
 	c.endCase()
 }
 
@@ -1811,6 +1947,376 @@ func (c *c11) caseConn(tamper string, wrongKey bool) {
 	c.endCase()
 }
 
+// ---- one Listener, several handshakes in flight ---------------------------------
+
+// lconn is the listener's end of one inbound connection: a vconn whose
+// SetReadDeadline calls are counted and can be made to fail, with its own remote address.
+type lconn struct {
+	*vconn
+	port    int
+	dlCalls int32
+	dlFail  int32
+}
+
+func (c *lconn) SetReadDeadline(t time.Time) error {
+	n := atomic.AddInt32(&c.dlCalls, 1)
+	if n == c.dlFail {
+		return errors.New("verif: deadline cannot be set")
+	}
+	return nil
+}
+func (c *lconn) RemoteAddr() net.Addr { return &net.TCPAddr{IP: net.IPv4(127, 0, 0, 1), Port: c.port} }
+
+type lsess struct {
+	k        int
+	I, R     *vmach
+	is, ie   *kinfo
+	re       *kinfo
+	conn     *lconn
+	in, out  *vpipe // to / from the listener
+	state    int    // 0 new, 1 act one under way, 2 waiting for act two, 3 act three under way, 4 waiting for the verdict, 5 done
+	feed     []byte // bytes of the current act still to deliver
+	cutAfter int    // close the stream after this many more bytes (-1: never)
+	flip1    int    // byte of act one / act three altered in flight (-1: none)
+	flip3    int
+	a1, a3   []byte // acts as delivered
+	d1, d3   bool   // delivered completely
+	a2       []byte
+	ban      int // 0 accept, 1 reject with error, 2 reject without error, 3 accept but return an error
+	banAsked bool
+	res      *maybeConn
+}
+
+func waitFor(cond func() bool) bool {
+	for i := 0; i < 400000; i++ {
+		if cond() {
+			return true
+		}
+		if i < 2000 {
+			time.Sleep(time.Microsecond)
+		} else {
+			time.Sleep(50 * time.Microsecond)
+		}
+	}
+	return false
+}
+
+// caseListener: n inbound connections handled by ONE Listener (its own handshake
+// semaphore, ban closure, result channel read through Accept), their acts arriving in
+// PRNG-interleaved fragments; per session at most one fault: wrong dialled key, a byte
+// altered in flight, the stream cut, a failing SetReadDeadline call, a banning closure.
+func (c *c11) caseListener(n int) {
+	c.startCase("listener")
+	rs := c.newKey()
+	slots := n - c.rng.Intn(2)
+	if slots < 1 {
+		slots = 1
+	}
+	var mu sync.Mutex
+	byKey := map[string]*lsess{}
+	l := &Listener{
+		localStatic:   &keychain.PrivKeyECDH{PrivKey: rs.priv},
+		handshakeSema: make(chan struct{}, slots),
+		conns:         make(chan maybeConn),
+		quit:          make(chan struct{}),
+	}
+	l.shouldAccept = func(p *btcec.PublicKey) (bool, error) {
+		mu.Lock()
+		defer mu.Unlock()
+		ss := byKey[string(p.SerializeCompressed())]
+		if ss == nil {
+			return true, nil
+		}
+		ss.banAsked = true
+		switch ss.ban {
+		case 1:
+			return false, errors.New("verif: banned")
+		case 2:
+			return false, nil
+		case 3:
+			return true, errors.New("verif: accepted with a warning")
+		}
+		return true, nil
+	}
+	for i := 0; i < slots; i++ {
+		l.handshakeSema <- struct{}{}
+	}
+	resCh := make(chan maybeConn, n+1)
+	go func() {
+		for {
+			conn, err := l.Accept()
+			if conn == nil && err != nil && strings.Contains(err.Error(), "brontide connection closed") {
+				return
+			}
+			var bc *Conn
+			if conn != nil {
+				bc = conn.(*Conn)
+			}
+			resCh <- maybeConn{conn: bc, err: err}
+		}
+	}()
+	var ss []*lsess
+	for k := 0; k < n; k++ {
+		x := &lsess{k: k, cutAfter: -1, flip1: -1, flip3: -1}
+		x.is, x.ie, x.re = c.newKey(), c.newKey(), c.newKey()
+		target := rs
+		dlFail := 0
+		switch f := c.rng.Intn(20); {
+		case f < 9:
+		case f < 11:
+			target = c.newKey()
+		case f < 13:
+			if c.rng.Intn(2) == 0 {
+				x.flip1 = []int{0, 1, 33, 34, 49, c.rng.Intn(ActOneSize)}[c.rng.Intn(6)]
+			} else {
+				x.flip3 = []int{0, 1, 49, 50, 65, c.rng.Intn(ActThreeSize)}[c.rng.Intn(6)]
+			}
+		case f < 15:
+			x.cutAfter = c.rng.Intn(ActOneSize + ActThreeSize)
+		case f < 18:
+			dlFail = 1 + c.rng.Intn(3)
+		default:
+			x.ban = 1 + c.rng.Intn(3)
+		}
+		x.I = c.newMach(true, x.is, target)
+		c.nMach++
+		x.R = &vmach{id: c.nMach, out: newPipe(c.nMach)}
+		c.pf("mach %d role=resp ls=%d", x.R.id, rs.id)
+		x.I.peer, x.R.peer = x.R, x.I
+		c.pf("pair %d %d", x.I.id, x.R.id)
+		x.in, x.out = newPipe(1000+2*k), newPipe(1001+2*k)
+		x.in.block, x.out.block = true, true
+		x.conn = &lconn{vconn: &vconn{r: x.in, w: x.out}, port: 20000 + k, dlFail: int32(dlFail)}
+		byKey[string(x.is.pub)] = x
+		ss = append(ss, x)
+	}
+	oldGen := ephemeralGen
+	defer func() { ephemeralGen = oldGen }()
+	collect := func() {
+		for {
+			select {
+			case r := <-resCh:
+				rr := r
+				port := -1
+				if r.conn != nil {
+					port = r.conn.conn.(*lconn).port
+				} else if r.err != nil {
+					for _, x := range ss {
+						if strings.Contains(r.err.Error(), fmt.Sprintf("127.0.0.1:%d:", x.conn.port)) {
+							port = x.conn.port
+						}
+					}
+				}
+				for _, x := range ss {
+					if x.conn.port == port && x.res == nil {
+						x.res = &rr
+					}
+				}
+			default:
+				return
+			}
+		}
+	}
+	pipeLen := func(p *vpipe) int {
+		p.mu.Lock()
+		defer p.mu.Unlock()
+		return len(p.buf)
+	}
+	// deliver the next fragment of the act under way
+	feedSome := func(x *lsess) {
+		k := []int{1, 1, 2, 3, 16, 17, 33, 1 + c.rng.Intn(66), len(x.feed)}[c.rng.Intn(9)]
+		if k > len(x.feed) {
+			k = len(x.feed)
+		}
+		if x.cutAfter >= 0 && k >= x.cutAfter {
+			k = x.cutAfter
+		}
+		x.in.Write(x.feed[:k])
+		if x.state == 1 {
+			x.a1 = append(x.a1, x.feed[:k]...)
+		} else {
+			x.a3 = append(x.a3, x.feed[:k]...)
+		}
+		x.feed = x.feed[k:]
+		if x.cutAfter >= 0 {
+			x.cutAfter -= k
+			if x.cutAfter == 0 {
+				x.in.closePipe()
+				x.feed = nil
+				x.state = 4
+				return
+			}
+		}
+		// the listener has taken the fragment (or has given up) before anything else happens
+		waitFor(func() bool { collect(); return pipeLen(x.in) == 0 || x.res != nil })
+		if len(x.feed) == 0 {
+			if x.state == 1 {
+				x.d1 = true
+				x.state = 2
+			} else {
+				x.d3 = true
+				x.state = 4
+			}
+		}
+	}
+	for {
+		collect()
+		var live []*lsess
+		for _, x := range ss {
+			if x.state != 5 {
+				live = append(live, x)
+			}
+		}
+		if len(live) == 0 {
+			break
+		}
+		x := live[c.rng.Intn(len(live))]
+		if x.res != nil && x.state != 0 && x.state != 2 {
+			x.state = 5
+			continue
+		}
+		switch x.state {
+		case 0:
+			select {
+			case <-l.handshakeSema: // what listen() does before Accept
+			default:
+				continue // every slot is busy: another session has to finish first
+			}
+			ephemeralGen = func() (*btcec.PrivateKey, error) { return x.re.priv, nil }
+			go func() {
+				defer func() {
+					if r := recover(); r != nil {
+						resCh <- maybeConn{err: fmt.Errorf("verif: panic in doHandshake 127.0.0.1:%d: x", x.conn.port)}
+					}
+				}()
+				l.doHandshake(x.conn)
+			}()
+			waitFor(func() bool { return atomic.LoadInt32(&x.conn.dlCalls) >= 1 })
+			a1 := c.gen1(x.I, x.ie)
+			if x.flip1 >= 0 {
+				a1 = c.flipAct(a1, x.flip1)
+			}
+			x.feed = a1
+			x.state = 1
+		case 1, 3:
+			feedSome(x)
+		case 2:
+			waitFor(func() bool { collect(); return pipeLen(x.out) >= ActTwoSize || x.res != nil })
+			if pipeLen(x.out) < ActTwoSize {
+				// rejected before act two went out (the verdict is there, or the listener hangs)
+				x.state = 4
+				continue
+			}
+			x.a2 = make([]byte, ActTwoSize)
+			io.ReadFull(x.out, x.a2)
+			c.pf("recv1 %d act=%s pk=%s => ok", x.R.id, hx11(x.a1), c.pkOf(x.a1[1:34]))
+			c.pf("gen2 %d e=%d => ok act=%s", x.R.id, x.re.id, hx11(x.a2))
+			if c.recv2(x.I, x.a2) != "ok" {
+				x.in.closePipe()
+				x.state = 4
+				continue
+			}
+			a3 := c.gen3(x.I)
+			if x.flip3 >= 0 {
+				a3 = c.flipAct(a3, x.flip3)
+			}
+			x.feed = a3
+			x.state = 3
+		case 4:
+			if !waitFor(func() bool { collect(); return x.res != nil }) {
+				x.res = &maybeConn{err: errors.New("verif: listener stuck")}
+			}
+			x.state = 5
+		}
+	}
+	// verdicts
+	for _, x := range ss {
+		res, rp := "ok", "-"
+		if x.res.err != nil || x.res.conn == nil {
+			e := ""
+			if x.res.err != nil {
+				e = x.res.err.Error()
+			}
+			mu.Lock()
+			asked := x.banAsked
+			mu.Unlock()
+			switch {
+			case strings.Contains(e, "verif: panic"):
+				res = "panic"
+			case strings.Contains(e, "listener stuck"):
+				res = "stuck"
+			case strings.Contains(e, "verif: deadline"):
+				res = "deadline"
+			case asked && (x.ban == 1 || x.ban == 2):
+				res = "banned"
+			case strings.Contains(e, "no remote pubkey"):
+				res = "noremote"
+			default:
+				res = classifyConn(x.res.err)
+			}
+		}
+		pad := func(b []byte, n int) []byte { return append(append([]byte(nil), b...), make([]byte, n-len(b))...) }
+		if x.a2 == nil && x.d1 && (res == "mac" || res == "version" || res == "parse") {
+			c.stats["recv1_"+res]++
+			c.pf("recv1 %d act=%s pk=%s => %s", x.R.id, hx11(x.a1), c.pkOf(x.a1[1:34]), res)
+		}
+		if x.a2 != nil && x.d3 {
+			switch {
+			case res == "ok":
+				x.R.m = x.res.conn.noise
+				rp = c.pkOf(x.res.conn.RemotePub().SerializeCompressed())
+				c.markSplit(x.R)
+				c.pf("recv3 %d act=%s => ok rpub=%s", x.R.id, hx11(x.a3), rp)
+			case res == "banned":
+				rp = strconv.Itoa(x.is.id)
+				c.pf("recv3 %d act=%s => ok rpub=%s", x.R.id, hx11(x.a3), rp)
+			case res == "mac" || res == "version" || res == "parse":
+				c.pf("recv3 %d act=%s => %s rpub=-", x.R.id, hx11(x.a3), res)
+			}
+		}
+		c.stats["lsess_"+res]++
+		a1h, pk1, a3h := "-", "invalid", "-"
+		if x.d1 {
+			a1h, pk1 = hx11(x.a1), c.pkOf(x.a1[1:34])
+		}
+		if x.d3 {
+			a3h = hx11(pad(x.a3, ActThreeSize))
+		}
+		c.pf("lflow %d e=%d dl=%d ban=%d d1=%v d3=%v a1=%s pk1=%s a3=%s => res=%s rpub=%s", x.R.id, x.re.id,
+			x.conn.dlFail, x.ban, x.d1, x.d3, a1h, pk1, a3h, res, rp)
+		if res == "ok" {
+			c.keysLine(x.I)
+			c.keysLine(x.R)
+		}
+	}
+	// every doHandshake goroutine gives its slot back when it returns
+	waitFor(func() bool { return len(l.handshakeSema) == slots })
+	c.pf("lsema cap=%d => free=%d", slots, len(l.handshakeSema))
+	close(l.quit)
+	// the accepted connections carry traffic, all of them at once
+	var okS []*lsess
+	for _, x := range ss {
+		if x.R.m != nil {
+			okS = append(okS, x)
+		}
+	}
+	for round := 0; round < 3; round++ {
+		for _, x := range okS {
+			c.write(x.I, c.randMsg(c.pickSize(round, 0.02)))
+			c.flush(x.I, c.pickBudget(x.I), false)
+			c.write(x.R, c.randMsg(c.pickSize(round, 0.02)))
+			c.flush(x.R, c.pickBudget(x.R), false)
+		}
+		for _, x := range okS {
+			c.flush(x.I, -1, false)
+			c.flush(x.R, -1, false)
+			c.read(x.R, x.I.out)
+			c.read(x.I, x.R.out)
+		}
+	}
+	c.endCase()
+}
+
 // ---------------------------------------------------------------------------
 
 func TestVerifC11(t *testing.T) {
@@ -1868,6 +2374,14 @@ func TestVerifC11(t *testing.T) {
 	}
 	for i := 0; i < rep(10, 80); i++ {
 		c.caseConn("flipver", false)
+	}
+	// several connections sharing the send-buffer pools
+	for i := 0; i < rep(6, 60); i++ {
+		c.casePool(2+c.rng.Intn(3), rep(400, 1500), 0.01)
+	}
+	// one Listener with several handshakes in flight
+	for i := 0; i < rep(30, 400); i++ {
+		c.caseListener(2 + c.rng.Intn(5))
 	}
 	// partial writes
 	for _, l := range []int{0, 1, 2, 15, 16, 17, 18, 100, 65534, 65535} {
